@@ -5,7 +5,7 @@ from typing import Optional
 
 from .. import decoders, guards, normal, render, sym
 from ..model import AnalysisError, Repo
-from ..report import Run
+from ..report import Run, take_over
 from ..sym import T, const, param
 from .c15 import named_selection
 
@@ -140,6 +140,9 @@ def check_fault_selection(repo: Repo, run: Run, D, e, f) -> None:
 
 
 def check(repo: Repo, run: Run) -> None:
+    take_over(run, "c04", "C04", repo, lambda o: o["rule"] == "K9", "R0", "dispatch of nested records",
+              "the composite decoders hand the nested records they select to parse_event_list: a list it declines gives no nested "
+              "trace, so the fields taken from it stay empty", 3)
     # a composite trace is computed from "the records of its window": that the window of an END is exactly the records of
     # the thread from the most recent START of that code is the pairing machine's contract (C04 K3-K5)
     from .c09 import window_obligations
